@@ -148,6 +148,11 @@ def gen_group(rng: random.Random, tag: str, gi: int) -> dict:
         if rng.random() < 0.3:
             binds.append([base + "p", "import", base + "p." + "SUB"])
         mods.append({"name": name, "binds": binds})
+    # a helper module through which others issue their references: binds none of the names, or one of them to a class of its own
+    hb = []
+    if rng.random() < 0.35:
+        hb.append([rng.choice(UNIVERSE[:3]), "class", wit]); wit += 1
+    mods.append({"name": base + "h", "binds": hb})
     # a package with one sub-module, for three-component names; half of the time its name repeats the package's
     pkg = base + "p"
     sub = ("x" + pkg) if rng.random() < 0.5 else "sub"
@@ -253,8 +258,51 @@ def gen_op(rng: random.Random, group: dict) -> dict:
     return {"k": kind, "ref": ref, "path": path, "intended": intended, "head_bound": head_bound}
 
 
+def gen_relay(rng: random.Random, group: dict, name=None, binder=None, tail=None, kind=None):
+    """A bare name issued by a frame whose module does NOT bind it, on behalf of a module further out that does:
+    0-2 non-binding frames in between, sometimes a nearer frame that binds the name to something else (the nearest
+    binding frame decides: Refs_repaired_bare), sometimes another binder further out (irrelevant)."""
+    mods = [m["name"] for m in group["mods"]]
+    name = name or rng.choice(UNIVERSE[:3] * 3 + UNIVERSE[3:])
+    binders = [m for m in mods if bound_in(group, m, name)]
+    free = [m for m in mods if not bound_in(group, m, name)]
+    if not binders or not free:
+        return None
+    binder = binder or rng.choice(binders)
+    path = [[binder, "hop"]]
+    if rng.random() < 0.3:
+        path.insert(0, [rng.choice(binders), "hop"])
+    if tail is None:
+        tail = []
+        if rng.random() < 0.25:
+            tail.append([rng.choice(binders), "hop"])
+        for _ in range(rng.choice([0, 0, 1, 2])):
+            tail.append([rng.choice(free), rng.choice(["hop", "hop", f"shadow_{rng.choice(UNIVERSE)}"])])
+        helper = group["base"] + "h"
+        tail.append([helper if helper in free and rng.random() < 0.7 else rng.choice(free), "do"])
+        tail = [t + [None] if t[1].startswith("shadow_") else t for t in tail]
+    return {"k": kind or rng.choice(["U", "U", "M", "D", "C", "R", "S"]), "ref": ["s", name], "path": path + tail,
+            "intended": None, "head_bound": False, "relay": True}
+
+
 def gen_history(rng: random.Random, group: dict, lo=2, hi=8) -> list:
-    ops = [gen_op(rng, group) for _ in range(rng.randint(lo, hi))]
+    ops = []
+    for _ in range(rng.randint(lo, hi)):
+        op = gen_relay(rng, group) if rng.random() < 0.18 else None
+        ops.append(op or gen_op(rng, group))
+    # the same bare name through the SAME non-binding helper frames on behalf of two modules that bind it differently
+    if rng.random() < 0.4:
+        names = [n for n in UNIVERSE if sum(bound_in(group, m["name"], n) for m in group["mods"]) >= 2]
+        if names:
+            n = rng.choice(names)
+            ms = [m["name"] for m in group["mods"] if bound_in(group, m["name"], n)]
+            rng.shuffle(ms)
+            first = gen_relay(rng, group, n, ms[0])
+            if first is not None:
+                tail = first["path"][[i for i, st in enumerate(first["path"]) if st[0] == ms[0]][-1] + 1:]
+                second = gen_relay(rng, group, n, ms[1], tail=tail)
+                ops.insert(rng.randint(0, len(ops)), first)
+                ops.append(second)
     # make the interesting collision frequent: the same bare name asked from two modules
     if rng.random() < 0.5:
         names = [n for n in UNIVERSE[:3] if sum(bound_in(group, m["name"], n) for m in group["mods"]) >= 2]
@@ -271,12 +319,13 @@ def gen_history(rng: random.Random, group: dict, lo=2, hi=8) -> list:
 def fixed_scenarios(tag: str) -> list:
     """The lead's reproduction and the other known shapes, always present."""
     b = f"rf{tag}fx"
-    g = {"base": b, "witnesses": 8,
+    g = {"base": b, "witnesses": 10,
          "mods": [{"name": b + "a", "binds": [["Node", "class", 0], ["Item", "opt", 1], ["TypeNode", "class", 2], ["Leaf", "pipe", 6]]},
                   {"name": b + "b", "binds": [["Node", "class", 3], ["Leaf", "from", b + "a", "Node"], ["Item", "newtype", 7]]},
                   {"name": b + "c", "binds": [["Item", "from", b + "a", "Node"], ["Ma", "importas", b + "a"],
                                               [b + "a", "import", b + "a"], [b + "b", "importas", b + "a"],
-                                              [b + "p", "import", b + "p.x" + b + "p"]]}],
+                                              [b + "p", "import", b + "p.x" + b + "p"]]},
+                  {"name": b + "h", "binds": [["Leaf", "class", 8]]}],
          "pkg": {"pkg": b + "p", "sub": "x" + b + "p", "binds": [["Node", "class", 4]]}}
     a, bb, c = b + "a", b + "b", b + "c"
 
@@ -312,6 +361,19 @@ def fixed_scenarios(tag: str) -> list:
         [{"k": "R", "ref": ["s", "Ma.Node"], "path": [[a, "do_local_Ma", [a, "Node"]]], "intended": None, "head_bound": False},
          {"k": "R", "ref": ["s", f"{bb}.Node"], "path": [[c, "shadow_Ma", [a, "Node"]], [a, "do"]], "intended": [bb, "Node"],
           "head_bound": False}],
+    ]
+    hm = b + "h"
+
+    def relay(k, binder, name, mid=()):
+        return {"k": k, "ref": ["s", name], "path": [[binder, "hop"]] + [list(x) for x in mid] + [[hm, "do"]],
+                "intended": None, "head_bound": False, "relay": True}
+    hs += [
+        # issued through a helper module that does not bind the name, on behalf of two modules that bind it differently
+        [relay("U", a, "Item"), relay("U", bb, "Item")],
+        [relay("M", bb, "Node", [(hm, "hop")]), relay("M", a, "Node", [(hm, "hop")]), relay("C", c, "Item"), relay("C", bb, "Item")],
+        # a nearer frame that binds the name to something else wins over the one further out
+        [relay("U", a, "Node", [(bb, "hop"), (hm, "hop")]), relay("U", bb, "Node", [(a, "hop")]), relay("R", a, "Leaf"),
+         relay("S", bb, "Leaf", [(c, "hop")])],
     ]
     return [(g, h) for h in hs]
 
@@ -1131,6 +1193,8 @@ def distribution(work, answers):
             d["depth"][str(len(op["path"]))] = d["depth"].get(str(len(op["path"])), 0) + 1
             if any(s[1].startswith(("shadow_", "do_local_")) for s in op["path"]):
                 d["locals_in_stack"] += 1
+            if op.get("relay"):
+                d["issued_by_a_non_binding_frame"] = d.get("issued_by_a_non_binding_frame", 0) + 1
             o = ob[3] if ob[0] == "R" else ob
             key = {"B": "object", "E": "raise", "O": "other"}.get(o[0], o[0])
             if o[0] == "E":
